@@ -71,6 +71,7 @@ theorem C05_leader_append_only (s s' : PSys) (e : Event) (h : applyEvent s e = .
     (h1 : (s.nodes j).role = 2) (h2 : (s'.nodes j).role = 2) :
     ∃ r, (s'.nodes j).log = (s.nodes j).log ++ r := by
   cases e with
+  | read r => obtain ⟨rd, hs⟩ := read_frame h; subst hs; exact ⟨[], by simp⟩
   | release i key =>
     simp only [applyEvent, ok] at h
     split at h
@@ -175,6 +176,7 @@ theorem C05_commit_prefix_immutable (s s' : PSys) (e : Event) (h : applyEvent s 
     (hcl : (s.nodes j).commit ≤ (s.nodes j).log.length) :
     (s'.nodes j).log.take (s.nodes j).commit = (s.nodes j).log.take (s.nodes j).commit := by
   cases e with
+  | read r => obtain ⟨rd, hs⟩ := read_frame h; subst hs; rfl
   | restart i => exact absurd rfl (hne.1 i)
   | installSnap i t idx st => exact absurd rfl (hne.2.1 i t idx st)
   | bootstrap i d idx => exact absurd rfl (hne.2.2 i d idx)
